@@ -46,7 +46,13 @@ func mutantsFor(prop string) []selfMutant {
 		if json.Unmarshal(b, &meta) != nil {
 			continue
 		}
-		_, det := meta.DetectedBy[prop]
+		det := false
+		if e, ok := meta.DetectedBy[prop].(map[string]interface{}); ok {
+			// only a reported violation counts (exit 1); "undecided on the changed tree" is not a detection
+			if ex, ok := e["exit"].(float64); ok && ex == 1 {
+				det = true
+			}
+		}
 		if !det && !meta.Benign {
 			continue
 		}
